@@ -123,6 +123,8 @@ func witnessOK(acc util.Uint160, w *transaction.Witness, magic uint32, c hash.Ha
 		pubs = [][]byte{pb}
 	} else if mm, pbs, ok := scparser.ParseMultiSigContract(w.VerificationScript); ok {
 		m, pubs = mm, pbs
+	} else if pb, ok := paddedSignatureContract(w.VerificationScript); ok {
+		pubs = [][]byte{pb}
 	} else {
 		return false, "verification script is not a standard contract"
 	}
@@ -302,3 +304,16 @@ func (cv *chainView) judge(b *block.Block) verdict {
 }
 
 var _ = bytes.Equal
+
+// paddedSignatureContract recognises PUSHDATA2 <filler> DROP followed by a
+// standard signature contract (the harness uses it to reach the size limit).
+func paddedSignatureContract(s []byte) ([]byte, bool) {
+	if len(s) < 4 || s[0] != byte(opcode.PUSHDATA2) {
+		return nil, false
+	}
+	n := int(s[1]) | int(s[2])<<8
+	if len(s) < 4+n || s[3+n] != byte(opcode.DROP) {
+		return nil, false
+	}
+	return scparser.ParseSignatureContract(s[4+n:])
+}
